@@ -65,6 +65,28 @@ theorem setters_then_pushes (b : MediaPlaylistBuilder) (cs : List HCall) (segs :
 
 /-! ## `push_segment` one by one = `segments(vec)` for implicitly numbered segments -/
 
+/-! ## the segment builder's `number` setter -/
+
+/-- the last call decides -/
+theorem segment_number_last_wins (b : MediaSegmentBuilder) (v w : Option Nat) :
+    (b.setNumber v).setNumber w = b.setNumber w := rfl
+
+/-- `number(None)` takes an explicit number back: the segment built is the one of a builder on which `number` was never
+called (what seed C20-m broke: it kept the explicit mark) -/
+theorem segment_number_none_resets (b : MediaSegmentBuilder) (n : Nat) (h1 : b.number = none) (h2 : b.explicit_number = none) :
+    ((b.setNumber (some n)).setNumber none).build = b.build := by
+  unfold MediaSegmentBuilder.build MediaSegmentBuilder.setNumber
+  simp [h1, h2]
+
+/-- and a segment whose number was given is marked explicit with exactly that number -/
+theorem segment_number_some (b : MediaSegmentBuilder) (n : Nat) (s : MediaSegment) (h : (b.setNumber (some n)).build = .ok s) :
+    s.number = n ∧ s.explicit_number = true := by
+  unfold MediaSegmentBuilder.build MediaSegmentBuilder.setNumber at h
+  simp only at h
+  split at h
+  · injection h with h; subst h; simp
+  · cases h
+
 theorem push_implicit (b : MediaPlaylistBuilder) (s : MediaSegment) (h : s.explicit_number = false) :
     (b.pushSegment s).segments = some (b.segments.getD [] ++ [some s]) := by
   simp [MediaPlaylistBuilder.pushSegment, h]
